@@ -30,6 +30,9 @@ func RunBackends(c *core.Ctx) {
 		if c.NumViolations() > 0 {
 			return
 		}
+		if c.CapacityHit {
+			return // one store refused an operation for its size: the transcripts are not comparable (inconclusive)
+		}
 		trs = append(trs, tr)
 	}
 	for i := 1; i < len(trs); i++ {
